@@ -160,6 +160,59 @@ pub enum Form {
     LitRef,
     /// first operand an input field, the others literals
     RefLit,
+    /// built tree evaluated as the rule of a ruleset; operand i is delivered by the route in base-4
+    /// digit i of the code: 0 constant leaf, 1 input field, 2 symbol, 3 user-function call
+    Deliver(u8),
+}
+
+const SYMBOL_NAMES: [&str; 4] = ["s0", "s1", "s2", "s3"];
+const FN_NAMES: [&str; 4] = ["g0", "g1", "g2", "g3"];
+
+fn deliver_codes(arity: usize) -> Vec<u8> {
+    (0..(1u16 << (2 * arity.min(3)))).map(|c| c as u8).collect()
+}
+
+fn observe_delivered(app: &App, code: u8) -> Obs {
+    use super::probe::{probe, Handler};
+    use std::sync::Arc;
+    let route = |i: usize| (code >> (2 * i.min(3))) & 3;
+    let t = app.tree(&|i, v| match route(i) {
+        0 => RE::Val(v.clone()),
+        1 => RE::reff(OPERAND_NAMES[i.min(3)]),
+        2 => RE::Sym(SYMBOL_NAMES[i.min(3)].to_string()),
+        _ => RE::call(FN_NAMES[i.min(3)], RE::Val(RV::Int(0))),
+    });
+    let expr = match t.try_to_expr() {
+        Ok(e) => e,
+        Err(p) => return Obs::Panic(format!("constructor: {p}")),
+    };
+    let vals: Vec<Value> = app.operands().iter().map(|v| v.to_value()).collect();
+    let r = crate::engine::panic::catch(|| {
+        let fvals = vals.clone();
+        let handler: Handler = Arc::new(move |name, _arg| {
+            let i = FN_NAMES.iter().position(|n| *n == name).unwrap_or(0);
+            (Ok(fvals.get(i).cloned().unwrap_or(Value::None)), 0)
+        });
+        let mut b = ruleset();
+        for (i, n) in FN_NAMES.iter().enumerate() {
+            b = b.with_function(probe(n, i % 2 == 0, &handler)).map_err(|e| format!("with_function failed: {e}"))?;
+        }
+        for (i, v) in vals.iter().enumerate().take(4) {
+            b = b.with_symbol(SYMBOL_NAMES[i], v.clone());
+        }
+        let rs = b.with_rule(Rule::new("r", BTreeMap::new(), expr.clone())).map_err(|e| format!("with_rule failed: {e}"))?.build();
+        let facts = Value::Map(vals.iter().enumerate().take(4).map(|(i, v)| (OPERAND_NAMES[i].to_string(), v.clone())).collect());
+        let out = crate::engine::exec::block_on(rs.evaluate_value(&facts))?.map_err(|e| format!("evaluate_value failed: {e}"))?;
+        if out.len() != 1 {
+            return Err(format!("{} outcomes for one rule", out.len()));
+        }
+        Ok::<_, String>(out.into_iter().next().unwrap().value)
+    });
+    match r {
+        Err(p) => Obs::Panic(p),
+        Ok(Err(m)) => Obs::Panic(format!("MACHINERY: {m}")),
+        Ok(Ok(v)) => observe(Ok(v)),
+    }
 }
 
 const OPERAND_NAMES: [&str; 4] = ["a", "b", "c", "e"];
@@ -206,6 +259,7 @@ pub fn observe_app(app: &App, form: Form) -> Result<Obs, String> {
             }
             Ok(eval_expr(&parsed, &Value::Map(m)))
         }
+        Form::Deliver(code) => Ok(observe_delivered(app, code)),
         Form::Literal => {
             let t = app.tree(&|_, v| RE::Val(v.clone()));
             let text = t.unparse().ok_or("no literal form")?;
@@ -510,6 +564,13 @@ fn literal_ok(v: &RV) -> bool {
 fn forms_for(app: &App, literal_core: &BTreeSet<RV>, thorough: bool) -> Vec<Form> {
     let mut f = vec![Form::Built, Form::Ruleset, Form::Refs];
     let ops = app.operands();
+    if !ops.is_empty() && ops.len() <= 3 {
+        // every operand a symbol; (thorough) every operand a user-function result
+        f.push(Form::Deliver(0b10_10_10 & ((1u8 << (2 * ops.len())) - 1)));
+        if thorough {
+            f.push(Form::Deliver(0b11_11_11 & ((1u8 << (2 * ops.len())) - 1)));
+        }
+    }
     if ops.len() == 2 && ops[0] == ops[1] {
         f.push(Form::SameRef);
     }
@@ -606,6 +667,9 @@ fn input_shapes(prop: Prop, acc: &mut Acc) {
         ("map", Value::Map([("a".to_string(), Value::Int(1))].into_iter().collect())),
         ("map-of-map", Value::Map([("a".to_string(), Value::Map([("b".to_string(), Value::None)].into_iter().collect()))].into_iter().collect())),
         ("empty-map", Value::Map(BTreeMap::new())),
+        // field names that collide with words of the language (`facts` stays the whole input)
+        ("map-with-facts-key", Value::Map([("facts".to_string(), Value::Int(7)), ("a".to_string(), Value::Int(1)), ("none".to_string(), Value::Int(8)), ("true".to_string(), Value::Int(9))].into_iter().collect())),
+        ("map-with-facts-map", Value::Map([("facts".to_string(), Value::Map([("a".to_string(), Value::Int(7))].into_iter().collect())), ("a".to_string(), Value::Int(1))].into_iter().collect())),
         ("int", Value::Int(5)),
         ("none", Value::None),
         ("list", Value::Vec(vec![Value::Int(1)])),
@@ -615,6 +679,7 @@ fn input_shapes(prop: Prop, acc: &mut Acc) {
         "a", "zz", "facts", "facts.a", "a + a", "is_none(a)", "facts.0", ":a", "f(a)", "[a, zz]", "{k: a}", "if a then a else zz", "a.a.a",
         // a None arising from a missing field / index, reached through the `facts` keyword and through a field
         "facts.zz", "facts.zz + i1", "facts.zz > i1", "int(facts.zz)", "facts.zz.x.0", "facts.zz == facts.zz", "facts.zz contains i1", "[i1] contains facts.zz", "a.zz", "a.zz + i1", "facts.a.zz", "-facts.zz", "!facts.zz", "uppercase(facts.zz)", "facts.zz and true", "if facts.zz then i1 else i2",
+        "facts.facts", "facts.facts.a", "facts contains \"a\"", "facts contains \"facts\"", "facts == facts", "facts.a + i1", "is_some(facts.a)", "[facts.a, a]",
     ];
     for (sname, facts) in &shapes {
         let rf = RV::from_value(facts);
@@ -863,6 +928,61 @@ pub fn run(prop: Prop, tier: Tier) -> i32 {
     let n_apps1 = apps.len() as u64;
     rep.absorb(acc1);
 
+    // delivery matrix: every operand independently a constant, an input field, a symbol or a
+    // user-function result (4^arity routes), evaluated through a ruleset
+    {
+        let dcore: Vec<RV> = if thorough { v0.clone() } else { pool::core(25) };
+        let mut dapps: Vec<App> = Vec::new();
+        for op in ALL_UNOPS {
+            for a in &v0 {
+                dapps.push(App::Un(op, a.clone()));
+            }
+        }
+        for op in ALL_BINOPS {
+            for a in &dcore {
+                for b in &dcore {
+                    dapps.push(App::Bin(op, a.clone(), b.clone()));
+                }
+            }
+        }
+        for a in &v0 {
+            for f in index_fields() {
+                dapps.push(App::IdxF(a.clone(), f.to_string()));
+            }
+            for n in index_positions() {
+                dapps.push(App::IdxN(a.clone(), n));
+            }
+        }
+        for c in pool::core(25) {
+            for t in &small {
+                for e in &small {
+                    dapps.push(App::If(c.clone(), t.clone(), e.clone()));
+                }
+            }
+            for b in &small {
+                dapps.push(App::List(vec![c.clone(), b.clone()]));
+                dapps.push(App::Map(vec![("k".to_string(), c.clone()), ("j".to_string(), b.clone())]));
+            }
+        }
+        let accd = dapps
+            .par_chunks(256)
+            .map(|chunk| {
+                let mut acc = Acc::new();
+                for app in chunk {
+                    for code in deliver_codes(app.operands().len()) {
+                        let obs = observe_delivered(app, code);
+                        acc.count("delivery_matrix_cases", 1);
+                        judge(prop, app, Form::Deliver(code), &obs, &mut acc);
+                    }
+                }
+                acc
+            })
+            .reduce(Acc::new, |a, b| a.merge(b));
+        rep.bound("delivery_matrix_applications", dapps.len());
+        rep.bound("delivery_routes_per_operand", "constant / input field / symbol / user-function result");
+        rep.absorb(accd);
+    }
+
     // round 2: values reached in round 1 that are not in V0
     let v0set: BTreeSet<RV> = v0.iter().cloned().collect();
     let frontier: Vec<RV> = results1.iter().filter(|v| !v0set.contains(*v)).cloned().collect();
@@ -975,6 +1095,10 @@ pub fn replay(prop: Prop, case: &J) -> i32 {
                 Some("Literal") => Form::Literal,
                 Some("LitRef") => Form::LitRef,
                 Some("RefLit") => Form::RefLit,
+                Some(d) if d.starts_with("Deliver(") => match d[8..].trim_end_matches(')').parse::<u8>() {
+                    Ok(c) => Form::Deliver(c),
+                    Err(_) => return 2,
+                },
                 _ => return 2,
             };
             let mut acc = Acc::new();
